@@ -178,3 +178,16 @@ def exc_site(e):
             rel = fn.split("/vt_mut_")[-1].split("/", 1)[-1] if "/vt_mut_" in fn else fn[len(REPO.rstrip("/")) + 1:]
             site = f"{rel}:{fr.name}"
     return f"{type(e).__name__}@{site}"
+
+
+async def retry_on_timeout(acc, coro_factory):
+    """Run one case; if it ended in a harness timeout (counter 'timeouts' grew) run it once more on fresh state.
+    Only a timeout that repeats stays counted (and makes the run inconclusive); a single stall on a loaded machine
+    is recorded as 'timeouts_retried'."""
+    before = acc.counters.get("timeouts", 0)
+    r = await coro_factory()
+    if acc.counters.get("timeouts", 0) > before:
+        acc.counters["timeouts"] = before
+        acc.count("timeouts_retried")
+        r = await coro_factory()
+    return r
